@@ -1,14 +1,37 @@
 """C02 - every backend behaves like one simple per-bucket event list under any history."""
+S = "aw_datastore.storages.sqlite.SqliteStorage."
 PROP = dict(
     id="C02",
     level="other",
-    contract_modules=["contracts.models"],
-    spec_modules=["contracts.models"],
-    functions=[],
+    contract_modules=["contracts.models", "contracts.sqlite"],
+    spec_modules=["contracts.sqlite"],
+    functions=[dict(fn=S + "delete", rt_skip=True),
+               dict(fn=S + "replace", rt_skip=True),
+               dict(fn=S + "replace_last", rt_skip=True),
+               dict(fn=S + "insert_one", rt_skip=True),
+               dict(fn=S + "insert_many", rt_skip=True),
+               dict(fn=S + "get_event", rt_skip=True),
+               dict(fn=S + "get_events", rt_skip=True),
+               dict(fn=S + "get_eventcount", rt_skip=True),
+               dict(fn="aw_datastore.storages.sqlite._rows_to_events", rt_skip=True)],
+    timeout_s=20,
     extra=[lambda run: run.storage_histories("C02")],
     technique="run-time refinement check of the real back ends against a reference list over random histories (bounded); "
-              "contract-based proof of the sqlite methods is layered on top where built",
-    explanation="bounded: random histories of insert / bulk upsert / replace / replace-last / delete / reads on memory, sqlite and "
+              "with the sqlite methods proved against contracts over the table state (SQL text parsed from the source)",
+    explanation="deductive (sqlite): delete removes exactly the addressed live event of the addressed bucket and nothing else; replace rewrites exactly that row; replace_last rewrites exactly the row a limit-1 read returns (greatest (starttime, endtime, id)), keeping id and bucket; insert_one / insert_many add rows with ids above the high-water mark (never reused: the mark never decreases in any method) and upsert by the last event carrying each id; get_event / get_events / get_eventcount describe exactly the live rows of the bucket - each as a postcondition over the whole table state (every other row of every bucket unchanged), proved from the SQL text in the source under the relational semantics of pyvc/sqlsem.py. " 
+                "bounded: random histories of insert / bulk upsert / replace / replace-last / delete / reads on memory, sqlite and "
                 "peewee are compared, after every operation, with a plain per-bucket reference list (contents by id, lookup-by-id, "
                 "counts, metadata); replace-last must rewrite exactly the event a limit-1 read returned immediately before.",
 )
+
+F = "/repo/aw_datastore/storages/sqlite.py"
+MUTANTS = [
+    (F, 'WHERE id = ? AND bucketrow = (SELECT b.rowid FROM buckets b WHERE b.id = ?)"', 'WHERE id = ?"', True),   # delete ignores the bucket
+    (F, 'ORDER BY starttime DESC, endtime DESC, id DESC LIMIT 1)"""', 'ORDER BY endtime DESC, id DESC LIMIT 1)"""', True),   # replace_last picks by endtime
+    (F, '        event.id = c.lastrowid\n', '        event.id = c.lastrowid + 1\n', True),   # wrong id handed out
+    (F, '        events_insert = [e for e in events if e.id is None]', '        events_insert = [e for e in events if e.id is None][1:]', True),   # bulk insert drops first
+    (F, '        return cursor.rowcount == 1\n', '        return cursor.rowcount >= 0\n', True),   # delete reports success always
+    (F, '            WHERE bucketrow = (SELECT rowid FROM buckets WHERE id = ?) AND id = ?\n            LIMIT 1', '            WHERE id = ?\n            LIMIT 1', True),   # get_event ignores bucket
+    (F, '            event_rows.append((bucket_id, starttime, endtime, datastr))', '            event_rows.append((bucket_id, starttime, starttime, datastr))', True),   # bulk insert stores zero duration
+    (F, '        self.conditional_commit(len(event_rows))', '        self.conditional_commit(len(events))', False),   # over-counting statements is harmless for contents
+]
